@@ -134,6 +134,7 @@ func check(p *pkgInfo) error {
 		Uses:       map[*ast.Ident]types.Object{},
 		Defs:       map[*ast.Ident]types.Object{},
 		Selections: map[*ast.SelectorExpr]*types.Selection{},
+		Instances:  map[*ast.Ident]types.Instance{},
 	}
 	// type errors are tolerated (the Go build decides whether the tree compiles; an
 	// import the source importer cannot resolve only degrades the site classification)
@@ -219,7 +220,15 @@ func main() {
 			}
 		}
 		for _, e := range ents {
-			if e.IsDir() || strings.HasSuffix(e.Name(), "_test.go") {
+			if e.IsDir() {
+				// data directories (//go:embed data/*): copied as they are, unless they
+				// are Go packages of their own
+				if _, isPkg := pkgs[modPath+"/"+filepath.ToSlash(filepath.Join(p.rel, e.Name()))]; !isPkg && !hasGoFiles(filepath.Join(p.dir, e.Name())) && e.Name() != ".git" {
+					copyTree(filepath.Join(p.dir, e.Name()), filepath.Join(dst, e.Name()))
+				}
+				continue
+			}
+			if strings.HasSuffix(e.Name(), "_test.go") {
 				continue
 			}
 			if b, ok := instrumented[e.Name()]; ok {
@@ -267,6 +276,38 @@ func must(err error) {
 	}
 }
 
+func hasGoFiles(dir string) bool {
+	found := false
+	filepath.WalkDir(dir, func(path string, d os.DirEntry, err error) error {
+		if err == nil && !d.IsDir() && strings.HasSuffix(path, ".go") {
+			found = true
+		}
+		return nil
+	})
+	return found
+}
+
+func copyTree(a, b string) {
+	n := 0
+	filepath.WalkDir(a, func(path string, d os.DirEntry, err error) error {
+		if err != nil {
+			return nil
+		}
+		rel, _ := filepath.Rel(a, path)
+		if d.IsDir() {
+			must(os.MkdirAll(filepath.Join(b, rel), 0o755))
+			return nil
+		}
+		if n++; n > 5000 {
+			return filepath.SkipAll
+		}
+		if info, e := d.Info(); e == nil && info.Mode().IsRegular() && info.Size() < 64<<20 {
+			copyFile(path, filepath.Join(b, rel))
+		}
+		return nil
+	})
+}
+
 func copyFile(a, b string) {
 	d, err := os.ReadFile(a)
 	must(err)
@@ -308,6 +349,9 @@ func analyse(p *pkgInfo, f *ast.File, name string) {
 		ip := strings.Trim(is.Path.Value, "\"")
 		if ip == "context" || ip == "os/signal" {
 			feeds = ip
+		}
+		if is.Name != nil && is.Name.Name == "." && (ip == "sync" || ip == "time" || ip == "runtime" || ip == "sync/atomic") {
+			rep.Unmodelled = append(rep.Unmodelled, Note{"dot-import of " + ip + " (its functions appear as plain identifiers)", pos(is.Pos())})
 		}
 		if noteImports[ip] {
 			rep.ImportsOfNote = append(rep.ImportsOfNote, Note{ip, pos(is.Pos())})
@@ -358,7 +402,7 @@ func analyse(p *pkgInfo, f *ast.File, name string) {
 			} else if goCallRewritable(p, x) {
 				rep.Modelled["go call"]++
 			} else {
-				rep.Unmodelled = append(rep.Unmodelled, Note{"go statement on a builtin or conversion", pos(x.Pos())})
+				rep.Unmodelled = append(rep.Unmodelled, Note{"go statement that cannot be rewritten (builtin, conversion, generic function, function literal or multi-value call among the arguments)", pos(x.Pos())})
 			}
 		case *ast.SendStmt:
 			rep.Modelled["channel send"]++
@@ -395,8 +439,7 @@ func analyse(p *pkgInfo, f *ast.File, name string) {
 				}
 				switch full {
 				case "(*sync.Mutex).Lock", "(*sync.RWMutex).Lock", "(*sync.RWMutex).RLock", "(*sync.Once).Do", "(*sync.WaitGroup).Wait",
-					"(*sync.WaitGroup).Add", "(*sync.WaitGroup).Done", "time.Sleep", "time.After", "time.Tick", "time.NewTimer", "time.NewTicker",
-					"time.AfterFunc", "(*time.Timer).Stop", "(*time.Timer).Reset", "(*time.Ticker).Stop", "(*time.Ticker).Reset":
+					"(*sync.WaitGroup).Add", "(*sync.WaitGroup).Done", "(*time.Timer).Stop", "(*time.Timer).Reset", "(*time.Ticker).Stop", "(*time.Ticker).Reset":
 					if !called[x] {
 						rep.Unmodelled = append(rep.Unmodelled, Note{"method value of " + full + " (not a direct call)", pos(x.Pos())})
 					}
@@ -410,7 +453,7 @@ func analyse(p *pkgInfo, f *ast.File, name string) {
 				switch {
 				case
 					full == "runtime.SetFinalizer",
-					full == "(sync.Locker).Lock", strings.HasPrefix(full, "(*golang.org/x/sync"):
+					strings.HasPrefix(full, "(*golang.org/x/sync"):
 					rep.Unmodelled = append(rep.Unmodelled, Note{full, pos(x.Pos())})
 				}
 			}
@@ -457,6 +500,22 @@ func instrument(p *pkgInfo, f *ast.File, src []byte, simImport string) []byte {
 	rewroteTime := false
 	rewroteRuntime := false
 	commaOK := map[*ast.UnaryExpr]bool{}
+	calledSel := map[*ast.SelectorExpr]bool{}
+	parent := map[ast.Node]ast.Node{}
+	{
+		var stack []ast.Node
+		ast.Inspect(f, func(n ast.Node) bool {
+			if n == nil {
+				stack = stack[:len(stack)-1]
+				return true
+			}
+			if len(stack) > 0 {
+				parent[n] = stack[len(stack)-1]
+			}
+			stack = append(stack, n)
+			return true
+		})
+	}
 
 	// is this statement "shared"? (shallow: nested blocks and function literals excluded)
 	var shallowShared func(n ast.Node) bool
@@ -513,6 +572,39 @@ func instrument(p *pkgInfo, f *ast.File, src []byte, simImport string) []byte {
 
 	var doList func(list []ast.Stmt, fn string, api bool, first *bool)
 	var walk func(n ast.Node, fn string, api bool, first *bool)
+	// render returns the source text of an expression with the rewrites of everything
+	// inside it applied (used where a whole region is replaced: select and range headers),
+	// so that `case <-time.After(d):` or `for range time.Tick(d)` get the simulated timers
+	render := func(n ast.Node, fn string) string {
+		saved := edits
+		edits = nil
+		f2 := false
+		walk(n, fn, false, &f2)
+		local := edits
+		edits = saved
+		base := off(n.Pos())
+		sort.SliceStable(local, func(i, j int) bool {
+			if local[i].off != local[j].off {
+				return local[i].off < local[j].off
+			}
+			if (local[i].del == 0) != (local[j].del == 0) {
+				return local[i].del == 0
+			}
+			return local[i].ord < local[j].ord
+		})
+		var b strings.Builder
+		cur := base
+		for _, e := range local {
+			if e.off < cur || e.off+e.del > off(n.End()) {
+				fatal("render: edit outside of the expression in %s", tf.Name())
+			}
+			b.Write(src[cur:e.off])
+			b.WriteString(e.text)
+			cur = e.off + e.del
+		}
+		b.Write(src[cur:off(n.End())])
+		return b.String()
+	}
 	emit := func(s ast.Stmt, fn string, api bool, first *bool) {
 		kind := "plain"
 		if shallowShared(s) {
@@ -571,7 +663,7 @@ func instrument(p *pkgInfo, f *ast.File, src []byte, simImport string) []byte {
 				return false
 			case *ast.SelectStmt:
 				if selectRewritable(x) {
-					txt := func(e ast.Node) string { return string(src[off(e.Pos()):off(e.End())]) }
+					txt := func(e ast.Node) string { return render(e, fn) }
 					hasDefault := "false"
 					var cases []string
 					idx := 0
@@ -617,6 +709,20 @@ func instrument(p *pkgInfo, f *ast.File, src []byte, simImport string) []byte {
 					walk(cl, fn, api, first)
 				}
 				return false
+			case *ast.ForStmt:
+				if len(x.Body.List) == 0 {
+					// `for !ready.Load() {}`: without a yield point the spinning task would
+					// never let anybody else run
+					kind, call := "plain", "Y"
+					if shallowShared(x) {
+						kind, call = "shared", "YS"
+					}
+					id := len(rep.Sites) + 1
+					rep.Sites = append(rep.Sites, Site{ID: id, File: pos(x.Body.Lbrace), Line: fset.Position(x.Body.Lbrace).Line, Kind: kind, Func: fn})
+					// ... and it yields voluntarily: a busy-wait makes no progress by itself
+					add(off(x.Body.Lbrace)+1, 0, fmt.Sprintf(" zzsim.%s(%d); zzsim.Gosched() ", call, id))
+					usedSim = true
+				}
 			case *ast.BlockStmt:
 				doList(x.List, fn, api, first)
 				return false
@@ -630,7 +736,69 @@ func instrument(p *pkgInfo, f *ast.File, src []byte, simImport string) []byte {
 				doList(x.Body, fn, api, first)
 				return false
 			case *ast.CallExpr:
+				{
+					fun := unparen(x.Fun)
+					if ix, ok := fun.(*ast.IndexExpr); ok {
+						fun = ix.X
+					}
+					if sel, ok := fun.(*ast.SelectorExpr); ok {
+						calledSel[sel] = true
+					}
+				}
 				rewriteCall(p, x, off, src, add, &usedSim, &rewroteSyncFunc, &rewroteTime, &rewroteRuntime)
+				// an atomic load that is an operand of a larger expression - n.Store(n.Load()+1),
+				// if a.Load() < b.Load() - gets a yield point right after it: race-free
+				// read-modify-write sequences inside ONE statement can be torn too
+				if isAtomicLoad(p, x) {
+					pn := parent[x]
+					for {
+						if pe, ok := pn.(*ast.ParenExpr); ok {
+							pn = parent[pe]
+							continue
+						}
+						break
+					}
+					nested := false
+					switch pp := pn.(type) {
+					case *ast.BinaryExpr:
+						nested = true
+					case *ast.CallExpr:
+						for _, a := range pp.Args {
+							if unparen(a) == ast.Expr(x) {
+								nested = true
+							}
+						}
+					}
+					if nested {
+						id := len(rep.Sites) + 1
+						rep.Sites = append(rep.Sites, Site{ID: id, File: pos(x.Pos()), Line: fset.Position(x.Pos()).Line, Kind: "shared", Func: fn})
+						add(off(x.Pos()), 0, fmt.Sprintf("zzsim.YV(%d, ", id))
+						add(off(x.End()), 0, ")")
+						rep.Rewrites["yield after nested atomic load"]++
+						usedSim = true
+					}
+				}
+			case *ast.SelectorExpr:
+				// package-level functions of time / runtime used as VALUES (`var now = time.Now`,
+				// `sleep: time.Sleep`): the simulator's functions have the same signatures
+				if !calledSel[x] {
+					if obj, ok := p.info.Uses[x.Sel].(*types.Func); ok && obj.Pkg() != nil {
+						switch obj.FullName() {
+						case "time.Now", "time.Since", "time.Until", "time.Sleep", "time.After", "time.Tick", "time.NewTimer", "time.NewTicker", "time.AfterFunc":
+							add(off(x.Pos()), off(x.End())-off(x.Pos()), "zzsim."+x.Sel.Name)
+							rep.Rewrites[obj.FullName()+" (value)"]++
+							usedSim = true
+							rewroteTime = true
+							return false
+						case "runtime.GOMAXPROCS", "runtime.NumCPU", "runtime.Gosched":
+							add(off(x.Pos()), off(x.End())-off(x.Pos()), "zzsim."+x.Sel.Name)
+							rep.Rewrites[obj.FullName()+" (value)"]++
+							usedSim = true
+							rewroteRuntime = true
+							return false
+						}
+					}
+				}
 			case *ast.GoStmt:
 				if fl, ok := x.Call.Fun.(*ast.FuncLit); ok {
 					add(off(x.Pos()), 0, "{ zzT := zzsim.TaskNew(); ")
@@ -697,7 +865,7 @@ func instrument(p *pkgInfo, f *ast.File, src []byte, simImport string) []byte {
 			case *ast.RangeStmt:
 				if tv, ok := p.info.Types[x.X]; ok && tv.Type != nil {
 					if _, isChan := tv.Type.Underlying().(*types.Chan); isChan {
-						ch := string(src[off(x.X.Pos()):off(x.X.End())])
+						ch := render(x.X, fn)
 						hdr := ""
 						switch {
 						case x.Key == nil:
@@ -709,7 +877,9 @@ func instrument(p *pkgInfo, f *ast.File, src []byte, simImport string) []byte {
 							k := string(src[off(x.Key.Pos()):off(x.Key.End())])
 							hdr = " { var zzok bool; " + k + ", zzok = zzsim.Recv2(" + ch + "); if !zzok { break }; "
 						}
-						add(off(x.For)+3, off(x.Body.Lbrace)+1-(off(x.For)+3), hdr)
+						// the body gets a block of its own: `for j := range ch { j := j; ... }` is idiomatic
+						add(off(x.For)+3, off(x.Body.Lbrace)+1-(off(x.For)+3), hdr+"{ ")
+						add(off(x.Body.Rbrace), 0, "} ")
 						rep.Rewrites["range over chan"]++
 						// only the body is walked further (the header text was replaced)
 						doList(x.Body.List, fn, api, first)
@@ -842,6 +1012,20 @@ func rewriteCall(p *pkgInfo, c *ast.CallExpr, off func(token.Pos) int, src []byt
 		}
 		return
 	}
+	// x.Lock() / x.RLock() on a value of INTERFACE type (sync.Locker, or an interface of
+	// the library that a sync mutex satisfies): decided at run time
+	if ok && len(c.Args) == 0 && (sel.Sel.Name == "Lock" || sel.Sel.Name == "RLock") {
+		if tv, has := p.info.Types[sel.X]; has && tv.Type != nil {
+			if _, isIface := tv.Type.Underlying().(*types.Interface); isIface {
+				if _, isTP := tv.Type.(*types.TypeParam); !isTP {
+					add(off(c.Fun.Pos()), off(c.Lparen)+1-off(c.Fun.Pos()), "zzsim."+sel.Sel.Name+"Any("+string(src[off(sel.X.Pos()):off(sel.X.End())]))
+					rep.Rewrites[sel.Sel.Name+" (interface)"]++
+					*usedSim = true
+					return
+				}
+			}
+		}
+	}
 	if !ok || obj.Pkg() == nil || obj.Pkg().Path() != "sync" {
 		return
 	}
@@ -931,6 +1115,28 @@ func unparen(e ast.Expr) ast.Expr {
 
 // selectRewritable: 1..16 communication clauses, each a plain send, receive or
 // receive-assignment.
+// isAtomicLoad: sync/atomic.LoadXxx(&v) or a Load method of a sync/atomic type.
+func isAtomicLoad(p *pkgInfo, c *ast.CallExpr) bool {
+	fun := unparen(c.Fun)
+	if ix, ok := fun.(*ast.IndexExpr); ok {
+		fun = ix.X
+	}
+	sel, ok := fun.(*ast.SelectorExpr)
+	if !ok {
+		return false
+	}
+	obj, ok := p.info.Uses[sel.Sel].(*types.Func)
+	if !ok || obj.Pkg() == nil || obj.Pkg().Path() != "sync/atomic" {
+		return false
+	}
+	if tv, ok := p.info.Types[c]; !ok || tv.Type == nil {
+		return false
+	} else if _, tuple := tv.Type.(*types.Tuple); tuple {
+		return false
+	}
+	return strings.HasPrefix(obj.Name(), "Load")
+}
+
 func selectRewritable(x *ast.SelectStmt) bool {
 	n := 0
 	for _, c := range x.Body.List {
@@ -979,5 +1185,21 @@ func goCallRewritable(p *pkgInfo, g *ast.GoStmt) bool {
 		}
 		return !bad
 	})
+	// `zzf := f` needs an instantiated function, `zza0 := g()` a single value
+	ast.Inspect(fun, func(n ast.Node) bool {
+		if id, ok := n.(*ast.Ident); ok {
+			if _, generic := p.info.Instances[id]; generic {
+				bad = true
+			}
+		}
+		return !bad
+	})
+	for _, a := range g.Call.Args {
+		if tv, ok := p.info.Types[a]; ok {
+			if _, tuple := tv.Type.(*types.Tuple); tuple {
+				bad = true
+			}
+		}
+	}
 	return !bad
 }
